@@ -1244,6 +1244,7 @@ def SIS_pair_based(G, tau, gamma, rho = None, nodelist = None,
         
     if  nodelist is None: #only get here if Y0 is None
         nodelist = G.nodes()
+    if Y0 is None: #rho is defined (given or default), with or without nodelist
         Y0 = np.array([rho]*N)
     if len(Y0) != N:
         raise EoN.EoNError("incompatible length for Y0")            
@@ -1549,6 +1550,7 @@ def SIR_pair_based(G, tau, gamma, rho = None, nodelist=None, Y0=None,
         
     if  nodelist is None: #only get here if Y0 is None
         nodelist = G.nodes()
+    if Y0 is None: #rho is defined (given or default), with or without nodelist
         Y0 = np.array([rho]*N)
     if len(Y0) != N:
         raise EoN.EoNError("incompatible length for Y0")            
